@@ -131,6 +131,11 @@ func kv(p *[][2]int64) map[string]string {
 	}
 	m := map[string]string{}
 	for _, e := range *p {
+		if e[1] == 0 {
+			// value 0 stands for the empty string (marker annotations / labels)
+			m[fmt.Sprintf("verif.io/k%d", e[0])] = ""
+			continue
+		}
 		m[fmt.Sprintf("verif.io/k%d", e[0])] = fmt.Sprintf("v%d", e[1])
 	}
 	return m
@@ -144,8 +149,11 @@ func unkv(m map[string]string) *[][2]int64 {
 	for k, v := range m {
 		a, err := strconv.ParseInt(strings.TrimPrefix(k, "verif.io/k"), 10, 64)
 		must(err)
-		b, err := strconv.ParseInt(strings.TrimPrefix(v, "v"), 10, 64)
-		must(err)
+		var b int64
+		if v != "" {
+			b, err = strconv.ParseInt(strings.TrimPrefix(v, "v"), 10, 64)
+			must(err)
+		}
 		out = append(out, [2]int64{a, b})
 	}
 	sort.Slice(out, func(i, j int) bool { return out[i][0] < out[j][0] })
